@@ -6,7 +6,7 @@
 #pragma once
 #include "common.h"
 namespace drv {
-enum Caps { C_INSF = 1, C_UPD = 2, C_ERA = 4, C_ERAF = 8, C_EXT = 16, C_GET = 32, C_FINDF = 64, C_EMP = 128, C_MINMAX = 256, C_UNL = 512, C_CLEAR = 1024, C_TRAV = 2048, C_CHECK = 4096, C_SIZE = 8192, C_NOEMPTY = 16384 };
+enum Caps { C_INSF = 1, C_UPD = 2, C_ERA = 4, C_ERAF = 8, C_EXT = 16, C_GET = 32, C_FINDF = 64, C_EMP = 128, C_MINMAX = 256, C_UNL = 512, C_CLEAR = 1024, C_TRAV = 2048, C_CHECK = 4096, C_SIZE = 8192, C_NOEMPTY = 16384, C_ITER = 32768, C_RITER = 65536 };
 static thread_local int t_uniq = 0;
 inline int new_id(int key) { return key * 100 + t_id * 10 + (++t_uniq % 10); }   // unique per (thread, counter) for up to 10 inserts per key and thread
 template <class Ad> void run_set_program(const Program& P, Ad& ad, std::function<void()> pre = nullptr, std::function<void()> post = nullptr) {
@@ -30,6 +30,13 @@ template <class Ad> void run_set_program(const Program& P, Ad& ad, std::function
     else if (n == "empty") { if (caps & C_NOEMPTY) return; inv("empty"); ret(ad.empty()); }
     else if (n == "clear") { if (!(caps & C_CLEAR)) return; inv("clear"); ad.clear(); ret(1); }
     else if (n == "trav") { if (!(caps & C_TRAV)) return; xev("trbeg"); ad.traverse([](int key, int id) { xev("tr", key, id); }); xev("trend"); }
+    else if (n == "iter" || n == "riter") {   // thread-safe iteration concurrent with updates (C19): every yield is an observation
+      if (!(caps & (n == "iter" ? C_ITER : C_RITER))) return; xev("itbeg");
+      ad.iterate(n == "riter", [](int key, int id, const void* p) { if (p && vs::mem_state(p) == 2) vs::report_uad(p, 94); xev("it", key, id); sched_yield(); if (p && vs::mem_state(p) == 2) vs::report_uad(p, 94); return false; }); xev("itend"); }
+    else if (n == "eraseat") {                // iterate to key k, then erase_at( iterator )
+      if (!(caps & C_ITER)) return; int found = 0, r = -1;
+      ad.iterate(false, [&](int key, int id, const void*) { if (key == k) { found = id; return true; } return false; }, [&](bool b) { r = b ? 1 : 0; }, [&](int id) { inv("eraseat", k, id); });
+      if (found) ret(r); }
     else if (n == "check") { if (!(caps & C_CHECK)) return; if (!ad.consistent()) xev("crash", 1); }
   };
   t_uniq = 0;
